@@ -206,7 +206,15 @@ _IMPORTS = NATIVE_IMPORTS + "\nimport polars as _pl\n"
 from contracts.common import TRotBatch
 
 
-@contract("acryo.molecules.core:Molecules.__init__", props=["C12"])
+def _native_owns(cls, pos, rot, features):
+    """the constructor copies a position array that already has the stored dtype (float32)"""
+    import numpy as np
+    p32 = np.ascontiguousarray(np.atleast_2d(np.asarray(pos, dtype=np.float32)))
+    m = cls(p32, rot, features)
+    return m._pos is not p32 and not np.shares_memory(m._pos, p32)
+
+
+@contract("acryo.molecules.core:Molecules.__init__", props=["C12", "C11"])
 class mol_init:
     """positions (P, K), an optional batch of R rotations, an optional feature table of F rows: accepted only when
     K == 3, R == P and F == P (a 0 x 0 table counts as `no features`); the object then satisfies the invariant."""
@@ -216,12 +224,16 @@ class mol_init:
     helpers = _H
     imports = _IMPORTS
     native_call = "_Molecules(args['pos'], args['rot'], args['features'])"
-    native_helpers = _NH
+    native_helpers = dict(_NH, _native_owns=_native_owns)
     raises = {"ValueError": "pos.shape[1] != 3 or (rot is not None and rot_len(rot) != pos.shape[0]) or "
                             "(features is not None and frame_rows(features) != pos.shape[0])"}
     native = {"invariant": "_native_invariant(result)",
-              "stores_inputs": "np.allclose(result.pos, pos) and (rot is None or np.allclose(result.rotator.as_matrix(), rot.as_matrix()))"}
+              "stores_inputs": "np.allclose(result.pos, pos) and (rot is None or np.allclose(result.rotator.as_matrix(), rot.as_matrix()))",
+              "owns_its_position_buffer": "_native_owns(type(result), pos, rot, features)"}
     ensures = {
+        # the object's position array is its own (a caller's array, or another molecules object's, is copied): in-place
+        # updates of one object can then never reach another (C11: copy=True never alters the original)
+        "owns_its_position_buffer": "self._pos is not pos",
         "invariant": "lengths_agree(self)",
         "stores_inputs": "n_of(self) == pos.shape[0] and forall(lambda i: all(self._pos[i, a] == pos[i, a] for a in range(3)) and "
                          "(rot is None or mateq(M(self._rotator, i), M(rot, i))) and "
